@@ -28,11 +28,6 @@ import (
 )
 
 const (
-	chJSON   = "c32:json"
-	chBin    = "c32:bin"
-	chExtraJ = "c32:xj"
-	chExtraB = "c32:xb"
-
 	classSSECR      = "c32-sse-bare-cr-in-json-payload-breaks-event"
 	classSSEDiffer  = "c32-sse-events-differ-from-queued-messages"
 	classHSDiffer   = "c32-http-stream-records-differ-from-queued-messages"
@@ -91,6 +86,7 @@ type connSpec struct {
 	rw     atomic.Pointer[recWriter]
 
 	body   []byte
+	cut    bool // the response broke off with a transport error: prefix comparison only
 	status int
 	proto  string
 	err    error
@@ -108,10 +104,16 @@ type step struct {
 }
 
 type scen struct {
-	c     *kit.Case
-	w     *kit.World
-	node  *centrifuge.Node
-	specs []*connSpec
+	c      *kit.Case
+	w      *kit.World
+	node   *centrifuge.Node
+	specs  []*connSpec
+	prefix string // unique per case: names, users and channels start with it
+	byName map[string]*connSpec
+
+	chJSON, chBin, chExtraJ, chExtraB string
+	useHistory                        bool
+	otherInfo                         []byte
 
 	logMu sync.Mutex
 	log   map[string][]logged
@@ -145,22 +147,141 @@ func waitFor(cond func() bool, d time.Duration) bool {
 	}
 }
 
+// env is the per-process server side: one node, one HTTP/1.1 and one HTTP/2 (TLS) server, shared
+// by the cases of this child process (creating a node per case costs more CPU under the race
+// detector than the case itself). Cases are isolated by a unique prefix on client names, user
+// ids and channel names.
+type env struct {
+	node *centrifuge.Node
+	srv1 *httptest.Server
+	srv2 *httptest.Server
+	mu   sync.Mutex
+	sc   map[string]*scen
+}
+
+var (
+	theEnv  *env
+	envOnce sync.Once
+)
+
+func prefixOf(name string) string {
+	if i := strings.IndexByte(name, '.'); i > 0 {
+		return name[:i]
+	}
+	return ""
+}
+
+func (e *env) lookup(name string) *scen {
+	e.mu.Lock()
+	defer e.mu.Unlock()
+	return e.sc[prefixOf(name)]
+}
+
+func getEnv() *env {
+	envOnce.Do(func() {
+		e := &env{sc: map[string]*scen{}}
+		gw := kit.NewWorld(nil)
+		e.node, _ = gw.NewNode(centrifuge.Config{ClientQueueMaxSize: 64 << 20}, func(n *centrifuge.Node) {
+			n.OnTransportWrite(func(cl *centrifuge.Client, ev centrifuge.TransportWriteEvent) bool {
+				if s := e.lookup(cl.UserID()); s != nil {
+					d := append([]byte(nil), ev.Data...)
+					s.logMu.Lock()
+					s.log[cl.ID()] = append(s.log[cl.ID()], logged{Data: d, FrameType: ev.FrameType.String()})
+					s.logMu.Unlock()
+				}
+				return true
+			})
+			n.OnConnecting(func(_ context.Context, ev centrifuge.ConnectEvent) (centrifuge.ConnectReply, error) {
+				s := e.lookup(ev.Name)
+				if s == nil {
+					return centrifuge.ConnectReply{}, centrifuge.DisconnectBadRequest
+				}
+				jl := centrifuge.SubscribeOptions{EmitJoinLeave: true, PushJoinLeave: true}
+				if rt, ok := ev.Transport.(*kit.RecTransport); ok {
+					ch := s.chJSON
+					if rt.Protocol() == centrifuge.ProtocolTypeProtobuf {
+						ch = s.chBin
+					}
+					return centrifuge.ConnectReply{
+						Credentials:   &centrifuge.Credentials{UserID: s.prefix + ".other", Info: s.otherInfo},
+						Subscriptions: map[string]centrifuge.SubscribeOptions{ch: jl},
+					}, nil
+				}
+				cs := s.byName[ev.Name]
+				if cs == nil {
+					return centrifuge.ConnectReply{}, centrifuge.DisconnectBadRequest
+				}
+				opts := jl
+				opts.Data = cs.subData
+				opts.EmitPresence = true
+				if s.useHistory {
+					opts.EnableRecovery = true
+				}
+				return centrifuge.ConnectReply{
+					Credentials:        &centrifuge.Credentials{UserID: cs.user, Info: cs.info},
+					Data:               cs.data,
+					Subscriptions:      map[string]centrifuge.SubscribeOptions{cs.ch: opts},
+					WriteDelay:         cs.writeDelay,
+					MaxMessagesInFrame: cs.maxInFrame,
+				}, nil
+			})
+			n.OnConnect(func(cl *centrifuge.Client) {
+				if s := e.lookup(cl.UserID()); s != nil {
+					for _, cs := range s.specs {
+						if cs.user == cl.UserID() {
+							cs.client.Store(cl)
+						}
+					}
+				}
+			})
+		})
+		wrap := func(h http.Handler) http.Handler {
+			return http.HandlerFunc(func(rw http.ResponseWriter, req *http.Request) {
+				rec := &recWriter{ResponseWriter: rw}
+				name := req.Header.Get("X-C32-Conn")
+				if s := e.lookup(name); s != nil {
+					if cs := s.byName[name]; cs != nil {
+						cs.rw.Store(rec)
+					}
+				}
+				h.ServeHTTP(rec, req)
+			})
+		}
+		mux := http.NewServeMux()
+		mux.Handle("/sse", wrap(centrifuge.NewSSEHandler(e.node, centrifuge.SSEConfig{})))
+		mux.Handle("/hs", wrap(centrifuge.NewHTTPStreamHandler(e.node, centrifuge.HTTPStreamConfig{})))
+		e.srv1 = httptest.NewServer(mux)
+		e.srv2 = httptest.NewUnstartedServer(mux)
+		e.srv2.EnableHTTP2 = true
+		e.srv2.StartTLS()
+		theEnv = e
+	})
+	return theEnv
+}
+
 func runCase(c *kit.Case) {
 	r := c.R
 	w := kit.NewWorld(c)
-	s := &scen{c: c, w: w, log: map[string][]logged{}, pays: map[string]*payload{}}
+	e := getEnv()
+	node := e.node
+	s := &scen{c: c, w: w, node: node, log: map[string][]logged{}, pays: map[string]*payload{}, byName: map[string]*connSpec{}}
+	s.prefix = fmt.Sprintf("k%d", c.Index)
+	s.chJSON, s.chBin = "c32:"+s.prefix+":json", "c32:"+s.prefix+":bin"
+	s.chExtraJ, s.chExtraB = "c32:"+s.prefix+":xj", "c32:"+s.prefix+":xb"
+	chJSON, chBin := s.chJSON, s.chBin
 	noCR := r.Bool()
 	useHTTP2 := r.Chance(1, 5)
 	useHistory := r.Chance(2, 3)
+	s.useHistory = useHistory
 
 	nConn := r.Range(1, 3)
 	for i := 0; i < nConn; i++ {
-		cs := &connSpec{idx: i, name: fmt.Sprintf("c%d", i), user: fmt.Sprintf("u%d", i), done: make(chan struct{})}
+		cs := &connSpec{idx: i, name: fmt.Sprintf("%s.c%d", s.prefix, i), user: fmt.Sprintf("%s.u%d", s.prefix, i), done: make(chan struct{})}
 		cs.kind = kit.Pick(r, []string{"sse_get", "sse_post", "hs_json", "hs_proto"})
 		cs.bin = cs.kind == "hs_proto"
-		cs.ch, cs.extra = chJSON, chExtraJ
+		cs.ch, cs.extra = s.chJSON, s.chExtraJ
 		if cs.bin {
-			cs.ch, cs.extra = chBin, chExtraB
+			cs.ch, cs.extra = s.chBin, s.chExtraB
 		}
 		cs.recoverReq = useHistory && r.Chance(1, 2)
 		cs.writeDelay = kit.Pick(r, []time.Duration{0, 0, time.Millisecond, 4 * time.Millisecond})
@@ -170,18 +291,17 @@ func runCase(c *kit.Case) {
 		cs.subData = s.newPayload(cs.bin, noCR).Raw
 		cs.endBy = kit.Pick(r, []string{"node_disconnect", "node_disconnect_custom", "client_disconnect"})
 		s.specs = append(s.specs, cs)
+		s.byName[cs.name] = cs
 	}
-	byName := map[string]*connSpec{}
 	anyJSON, anyBin := false, false
 	for _, cs := range s.specs {
-		byName[cs.name] = cs
 		if cs.bin {
 			anyBin = true
 		} else {
 			anyJSON = true
 		}
 	}
-	otherInfo := s.newPayload(false, noCR).Raw
+	s.otherInfo = s.newPayload(false, noCR).Raw
 
 	// ---- the script (all PRNG draws happen here, before anything runs)
 	var pre []*payload // published before anybody connects (history, recovered in the connect reply)
@@ -233,82 +353,25 @@ func runCase(c *kit.Case) {
 		}
 	}
 
-	c.Logf("t generated %v", w.Now())
-	// ---- node and server
-	node, _ := w.NewNode(centrifuge.Config{ClientQueueMaxSize: 64 << 20}, func(n *centrifuge.Node) {
-		n.OnTransportWrite(func(cl *centrifuge.Client, e centrifuge.TransportWriteEvent) bool {
-			d := append([]byte(nil), e.Data...)
-			s.logMu.Lock()
-			s.log[cl.ID()] = append(s.log[cl.ID()], logged{Data: d, FrameType: e.FrameType.String()})
-			s.logMu.Unlock()
-			return true
-		})
-		n.OnConnecting(func(_ context.Context, e centrifuge.ConnectEvent) (centrifuge.ConnectReply, error) {
-			jl := centrifuge.SubscribeOptions{EmitJoinLeave: true, PushJoinLeave: true}
-			if rt, ok := e.Transport.(*kit.RecTransport); ok {
-				ch := chJSON
-				if rt.Protocol() == centrifuge.ProtocolTypeProtobuf {
-					ch = chBin
-				}
-				return centrifuge.ConnectReply{
-					Credentials:   &centrifuge.Credentials{UserID: "other", Info: otherInfo},
-					Subscriptions: map[string]centrifuge.SubscribeOptions{ch: jl},
-				}, nil
-			}
-			cs := byName[e.Name]
-			if cs == nil {
-				return centrifuge.ConnectReply{}, centrifuge.DisconnectBadRequest
-			}
-			opts := jl
-			opts.Data = cs.subData
-			opts.EmitPresence = true
-			if useHistory {
-				opts.EnableRecovery = true
-			}
-			return centrifuge.ConnectReply{
-				Credentials:        &centrifuge.Credentials{UserID: cs.user, Info: cs.info},
-				Data:               cs.data,
-				Subscriptions:      map[string]centrifuge.SubscribeOptions{cs.ch: opts},
-				WriteDelay:         cs.writeDelay,
-				MaxMessagesInFrame: cs.maxInFrame,
-			}, nil
-		})
-		n.OnConnect(func(cl *centrifuge.Client) {
-			for _, cs := range s.specs {
-				if cs.user == cl.UserID() {
-					cs.client.Store(cl)
-				}
-			}
-		})
-	})
-	s.node = node
-
-	wrap := func(h http.Handler) http.Handler {
-		return http.HandlerFunc(func(rw http.ResponseWriter, req *http.Request) {
-			rec := &recWriter{ResponseWriter: rw}
-			if cs := byName[req.Header.Get("X-C32-Conn")]; cs != nil {
-				cs.rw.Store(rec)
-			}
-			h.ServeHTTP(rec, req)
-		})
-	}
-	mux := http.NewServeMux()
-	mux.Handle("/sse", wrap(centrifuge.NewSSEHandler(node, centrifuge.SSEConfig{})))
-	mux.Handle("/hs", wrap(centrifuge.NewHTTPStreamHandler(node, centrifuge.HTTPStreamConfig{})))
-	srv := httptest.NewUnstartedServer(mux)
+	e.mu.Lock()
+	e.sc[s.prefix] = s
+	e.mu.Unlock()
+	srv := e.srv1
 	if useHTTP2 {
-		srv.EnableHTTP2 = true
-		srv.StartTLS()
-	} else {
-		srv.Start()
+		srv = e.srv2
 	}
-	httpClient := srv.Client()
+	// own transport per case, no connection reuse between requests: a stream that the server
+	// aborted must not poison a later request
+	tr := srv.Client().Transport.(*http.Transport).Clone()
+	tr.DisableKeepAlives = true
+	httpClient := &http.Client{Transport: tr}
 	ctx, cancel := context.WithTimeout(context.Background(), requestDeadline)
 	cleanup := func() {
 		cancel()
-		srv.CloseClientConnections()
-		srv.Close()
-		w.Shutdown()
+		tr.CloseIdleConnections()
+		e.mu.Lock()
+		delete(e.sc, s.prefix)
+		e.mu.Unlock()
 	}
 
 	publish := func(ch string, p *payload) {
@@ -411,7 +474,7 @@ func runCase(c *kit.Case) {
 					pt = centrifuge.ProtocolTypeProtobuf
 				}
 				oc := w.NewConn(node, kit.TransportOpts{Protocol: pt})
-				oc.Connect(&protocol.ConnectRequest{Name: "other"})
+				oc.Connect(&protocol.ConnectRequest{Name: s.prefix + ".other"})
 				others[st.Ch] = oc
 			}
 		case "other_leave":
@@ -471,9 +534,21 @@ func runCase(c *kit.Case) {
 	// ---- evaluate
 	var sigs []string
 	for _, cs := range s.specs {
-		if cs.err != nil || cs.status != http.StatusOK {
-			c.Inconclusive(fmt.Sprintf("conn %s: status %d, read error %v", cs.kind, cs.status, cs.err))
+		if cs.status == 0 {
+			// the request failed before any response (machine overload, connection refused...):
+			// this connection exercised nothing
+			c.Count("conn_request_failed_before_response", 1)
 			continue
+		}
+		if cs.status != http.StatusOK {
+			c.Inconclusive(fmt.Sprintf("conn %s: unexpected HTTP status %d", cs.kind, cs.status))
+			continue
+		}
+		if cs.err != nil {
+			// the response broke off (typically the handler's 1 s write deadline on an overloaded
+			// machine): what was received must still be a prefix of what was queued
+			cs.cut = true
+			c.Count("conn_stream_cut_by_transport_error_prefix_compared", 1)
 		}
 		sigs = append(sigs, s.evaluate(cs))
 	}
@@ -574,19 +649,19 @@ func (s *scen) evaluate(cs *connSpec) string {
 			}
 		}
 		base["sse_ignored_field_lines"] = st.IgnoredFields
-		if st.PendingAtEOF || st.PartialLine {
+		if (st.PendingAtEOF || st.PartialLine) && !cs.cut {
 			c.Violation(differ, "SSE stream ends inside an event (no terminating blank line): a conforming parser discards it", detail(map[string]any{"tail": clip(cs.body[max(0, len(cs.body)-120):], 120)}))
 		}
 	case "hs_json":
 		var partial bool
 		recs, partial = parseNDJSON(cs.body)
-		if partial {
+		if partial && !cs.cut {
 			c.Violation(differ, "HTTP stream ends inside a record (no terminating newline)", detail(map[string]any{"tail": clip(cs.body[max(0, len(cs.body)-120):], 120)}))
 		}
 	case "hs_proto":
 		var problem string
 		recs, problem = parseVarintStream(cs.body)
-		if problem != "" {
+		if problem != "" && !cs.cut {
 			c.Violation(differ, "HTTP stream (Protobuf) is not a sequence of varint-length records: "+problem, detail(nil))
 		}
 	}
@@ -664,7 +739,7 @@ func (s *scen) evaluate(cs *connSpec) string {
 		c.Count("kind_"+k, 1)
 		s.checkPayloads(cs, rep, i, detail)
 	}
-	if len(recs) != len(log) {
+	if len(recs) != len(log) && !(cs.cut && len(recs) < len(log)) {
 		// with a CR-broken event the count still matches (the rest of the line is an ignored field)
 		c.Violation(differ, fmt.Sprintf("%s: client parsed %d records, server queued %d messages", cs.kind, len(recs), len(log)),
 			detail(map[string]any{"records": len(recs), "first_unmatched_queued": firstAfter(log, n), "first_unmatched_received": firstRecAfter(recs, n)}))
@@ -788,9 +863,9 @@ func TestC32(t *testing.T) {
 	kit.Main(t, kit.Spec{
 		ID:    "C32",
 		Level: "exploration",
-		Rule: "each case (real time) = one node behind a real net/http server (httptest; HTTP/1.1, 1 in 5 cases HTTP/2 over TLS) serving centrifuge.NewSSEHandler and NewHTTPStreamHandler; 1-3 connections, each SSE via GET cf_connect / SSE via POST / HTTP-stream JSON / HTTP-stream Protobuf, " +
+		Rule: "each case (real time) runs against a node behind real net/http servers (httptest; HTTP/1.1, 1 in 5 cases HTTP/2 over TLS; node and servers are shared by the cases of one child process, cases are isolated by unique client/user/channel names) serving centrifuge.NewSSEHandler and NewHTTPStreamHandler; 1-3 connections, each SSE via GET cf_connect / SSE via POST / HTTP-stream JSON / HTTP-stream Protobuf, " +
 			"with connect-time server-side subscriptions (join/leave, recovery from history in 2 of 3 cases), PRNG-chosen WriteDelay and MaxMessagesInFrame; a PRNG-built script of publication bursts (1-20 back to back), Client.Send, Node.Subscribe/Unsubscribe/Refresh, other clients joining and leaving, ended by a server-side disconnect. " +
-			"JSON payloads are generated token by token with whitespace runs (SP, TAB, LF, CR, CRLF by per-payload profile; CR/CRLF excluded in half of the cases) before/after/between tokens, unicode (literal and escaped U+2028/2029, 4-byte, surrogate escapes, BOM char, escaped NUL/newlines, SSE look-alike text), nesting up to 300, strings up to 200 KB; Protobuf payloads are arbitrary bytes. " +
+			"JSON payloads are generated token by token with whitespace runs (SP, TAB, LF, CR, CRLF by per-payload profile; CR/CRLF excluded in half of the cases) before/after/between tokens, unicode (literal and escaped U+2028/2029, 4-byte, surrogate escapes, BOM char, escaped NUL/newlines, SSE look-alike text), nesting up to 300, strings up to 100 KB; Protobuf payloads are arbitrary bytes. " +
 			"The response body is parsed by a WHATWG EventSource parser / an ndjson reader / a varint-length reader written from the standards; oracle: records == messages seen by Node.OnTransportWrite for that client, one to one and in order (JSON compared after json.Compact, Protobuf byte-identical), each record decodes to exactly one protocol.Reply, and every application payload inside equals the published one. " +
 			"Non-trivial = a connection whose stream was compared; signature = per connection (transport, message kinds seen, #records bucket).",
 		Assumptions: []string{
@@ -798,9 +873,10 @@ func TestC32(t *testing.T) {
 			"Node.OnTransportWrite reports every message handed to the transport, in hand-over order (ReplyWithoutQueue is not used: it writes from two goroutines)",
 			"JSON payloads are valid UTF-8 (RFC 8259); invalid UTF-8 inside strings is not generated",
 			"every connection is ended by a server-side disconnect, so the stream is complete when it ends; a stream that does not end within 20 s is inconclusive",
+			"a response that breaks off with a transport error (the handlers' 1 s write deadline on an overloaded machine) is compared as a prefix of the queued messages; a request that fails before any response exercises nothing and is only counted",
 			"batch sizes are measured server-side as records completed between two Flush calls of the http.ResponseWriter",
 		},
-		Cases: map[string]int{"quick": 3000, "thorough": 40000},
+		Cases: map[string]int{"quick": 1200, "thorough": 16000},
 		RequireCounters: []string{
 			"conn_sse_get", "conn_sse_post", "conn_hs_json", "conn_hs_proto", "conn_http2",
 			"payload_ws_sp", "payload_ws_tab", "payload_ws_lf", "payload_ws_cr", "payload_ws_crlf",
